@@ -53,7 +53,13 @@ var profiles = map[string]map[string]int{
 	"fault":     {"CFA": 6, "CBA": 8, "CAN": 1, "BID": 34, "MOD": 6, "ADDMSG": 0, "PARAMS": 1, "APIADD": 14, "APIUPD": 2, "BLOCK": 16, "SEND": 1, "LISTEN": 2, "GENESIS": 0, "FBLOCK": 9, "QUERY": 2},
 	"malformed": {"CFA": 14, "CBA": 14, "CAN": 8, "BID": 22, "MOD": 10, "ADDMSG": 4, "PARAMS": 8, "APIADD": 8, "APIUPD": 4, "BLOCK": 6, "SEND": 2, "LISTEN": 0, "GENESIS": 0, "FBLOCK": 0, "QUERY": 4},
 }
-var profileOrder = []string{"fixed", "batch", "multi", "hooks", "genesis", "fault", "malformed", "batch", "multi", "fixed"}
+
+func init() {
+	// crowd: every account may bid in every auction; many bidders per settlement
+	profiles["crowd"] = map[string]int{"CFA": 3, "CBA": 5, "CAN": 0, "BID": 60, "MOD": 8, "ADDMSG": 0, "PARAMS": 1, "APIADD": 4, "APIUPD": 2, "BLOCK": 10, "SEND": 1, "LISTEN": 0, "GENESIS": 1, "FBLOCK": 0, "QUERY": 2}
+}
+
+var profileOrder = []string{"fixed", "batch", "multi", "hooks", "genesis", "fault", "malformed", "batch", "crowd", "fixed", "crowd", "multi"}
 
 func NewGen(seed uint64, e *Env, profile string) *Gen {
 	return &Gen{r: &Rng{seed}, e: e, profile: profile, w: profiles[profile]}
@@ -628,6 +634,19 @@ func (g *Gen) Next() Op {
 			return g.create(false)
 		}
 		return g.create(g.r.P(50))
+	}
+	if g.profile == "crowd" {
+		for _, a := range as {
+			if (a.GetStatus() == types.AuctionStatusStarted || a.GetStatus() == types.AuctionStatusStandBy) && len(g.allowedOf(a.GetId())) < NUsers-1 {
+				var l []string
+				for u := 0; u < NUsers; u++ {
+					l = append(l, fmt.Sprintf("%d/u%d/%s", a.GetId(), u, mulDiv(a.GetSellingCoin().Amount, int64(1+g.r.N(4)), 4).AddRaw(1).SubRaw(1).String()))
+				}
+				if a.GetSellingCoin().Amount.GTE(math.NewInt(4)) {
+					return NewOp("APIADD", "a", fmt.Sprint(a.GetId()), "l", strings.Join(l, ";"))
+				}
+			}
+		}
 	}
 	// an auction nobody may bid in is dull: allow-list somebody soon
 	for _, a := range as {
